@@ -113,12 +113,12 @@ class Ctx:
     # ---------------------------------------------------------------- Coq
     def coq_make(self, targets, timeout=3000):
         """Build .vo targets (paths relative to coq/) with the project Makefile, serialised by a lock."""
+        clean = ''
         if self.tier == 'thorough':
-            for t in targets:
-                for ext in ('.vo', '.glob', '.vok', '.vos'):
-                    try: os.remove(os.path.join(COQ, t[:-3] + ext))
-                    except OSError: pass
-        cmd = "flock %s/.coqlock sh -c 'ulimit -v 16000000; %s/bin/mkcoqproject; timeout %d make -k -j16 %s'" % (BUILD, VERIF, timeout, ' '.join(targets))
+            # re-prove from scratch, but only this property's own files (shared Base/Lib/Gen .vo are left alone)
+            own = [t for t in targets if re.match(r'(%s/|Props/Properties_%s)' % (self.pid, self.pid), t)]
+            clean = ' '.join('rm -f %s.vo %s.glob %s.vok %s.vos;' % ((t[:-3],) * 4) for t in own)
+        cmd = "flock %s/.coqlock sh -c 'ulimit -v 16000000; %s %s/bin/mkcoqproject; timeout %d make -k -j16 %s'" % (BUILD, clean, VERIF, timeout, ' '.join(targets))
         rc, out, err = sh(cmd, cwd=COQ, timeout=timeout + 60)
         built = [t for t in targets if os.path.exists(os.path.join(COQ, t)) and
                  os.path.getmtime(os.path.join(COQ, t)) >= os.path.getmtime(os.path.join(COQ, t[:-1]))]
